@@ -157,6 +157,8 @@ func (ck *checker) fail(env *qh.Env, q *qm.Q, pc qh.PlanCase, what, format strin
 		class = env.Classify(q)
 	case "read":
 		class = qh.ClassifyPanic(msg)
+	case "columns-grew-minmax":
+		class = qm.ClassWholeRowFlips
 	}
 	if triage != nil {
 		what += ":" + class
@@ -241,6 +243,10 @@ func (ck *checker) checkCase(env *qh.Env, q *qm.Q, only *qh.PlanCase) {
 			return
 		}
 		if !qh.SameCols(p.Cols, exp.Cols) {
+			if qm.MinMax1(q) && env.Classify(q) == "" && subset(exp.Cols, p.Cols) {
+				ck.fail(env, q, pc, "columns-grew-minmax", "optimized query has columns %v, as written %v (%s)", p.Cols, exp.Cols, p.Strategy)
+				return
+			}
 			ck.fail(env, q, pc, "columns-optimized", "optimized query has columns %v, expected %v (%s)", p.Cols, exp.Cols, p.Strategy)
 			return
 		}
@@ -310,6 +316,21 @@ func (ck *checker) checkCase(env *qh.Env, q *qm.Q, only *qh.PlanCase) {
 		}
 	}
 	c.Count("cases_judged", 1)
+}
+
+func subset(a, b []string) bool {
+	for _, x := range a {
+		found := false
+		for _, y := range b {
+			if x == y {
+				found = true
+			}
+		}
+		if !found {
+			return false
+		}
+	}
+	return true
 }
 
 // stratShape reduces a strategy string to its operator/strategy skeleton
